@@ -414,10 +414,8 @@ func (wf *Workflow[I, O]) AddBranch(fromNodeKey string, branch *GraphBranch) *Wo
 
 // Deprecated: use *Workflow[I,O].End() to obtain a WorkflowNode instance for END, then work with it just like a normal WorkflowNode.
 func (wf *Workflow[I, O]) AddEnd(fromNodeKey string, inputs ...*FieldMapping) *Workflow[I, O] {
-	for _, input := range inputs {
-		input.fromNodeKey = fromNodeKey
-	}
-	_ = wf.g.addEdgeWithMappings(fromNodeKey, END, false, false, inputs...)
+	// the same as End().AddInput: in particular the target paths take part in END's check for overlapping mappings
+	wf.End().AddInput(fromNodeKey, inputs...)
 	return wf
 }
 
